@@ -1247,6 +1247,7 @@ func GetSSRsFromQSR(qsr *QuerySegmentRequest, querySummary *summary.QuerySummary
 			qsr.indexInfo.GetQueryTables(), querySummary, qsr.qid, isQueryPersistent, qsr.pqid)
 	}
 	querySummary.UpdateExtractSSRTime(time.Since(sTime))
+	verifhook.At("search.planned", "qid", qsr.qid, "segkey", qsr.segKey, "n", len(rawSearchSSRs))
 
 	for _, req := range rawSearchSSRs {
 		req.SType = qsr.sType
